@@ -287,7 +287,7 @@ func (ts *TernarySampler) kysampling(prng sampling.PRNG, randomBytes []byte, poi
 
 			// There is small probability that it will get out of the bound, then
 			// rerun until it gets a proper output
-			if d > colLen-1 {
+			if d > colLen-1 || col >= len(ts.matrixProba[0]) {
 				return ts.kysampling(prng, randomBytes, i, bytePointer, byteLength)
 			}
 
